@@ -349,7 +349,7 @@ def t_empty(t):
     return all(t_empty(c) for c in t[1])
 
 
-def t_shape(t, ring_ctx=False):
+def t_shape(t):
     """type tree + emptiness + coordinate counts, dimensions and ordinates erased"""
     if t[0] in LEAVES:
         return (t[0], len(t[2]))
@@ -937,6 +937,8 @@ def check_wkt(ctx, j, line, c, t, gi, gm, replay, dist, disagree, hexe):
         fid = ('C10-B' if old else 'C10-A') if (gm is None or gm.get('X') == 'NONE') else None
         if fid == 'C10-B' and mixed_collection(t, dim, True):
             fid = 'C10-A'
+        if fid is None and any(NUM_RE.match(x) and math.isinf(float(x)) for x in (m.group(0) for m in WKT_NUM.finditer(W))):
+            fid = 'C10-E'       # a finite ordinate next to DBL_MAX was rounded up past the largest double: the text carries an infinity the geometry never had
 
         def fails(t2):
             l2 = 'G %d %d %d %d %s' % (trim, prec, dim, old, ' '.join(tree_words(t2))) if c != 'L' else 'G L - - - ' + ' '.join(tree_words(t2))
@@ -955,22 +957,18 @@ def check_wkt(ctx, j, line, c, t, gi, gm, replay, dist, disagree, hexe):
     except Exception as e:
         ctx.broken.append(dict(kind='harness', name='dump parse', detail=R[:300])); return
     # type tree, emptiness
-    if t_shape(rt) != t_shape_expected(t):
+    if t_shape(rt) != t_shape(t):
         report(ctx, None, 'wkt_shape_%d' % j, dict(case=line, written=W, reread=R, input=gi.get('I'), replay=replay), 'type tree / emptiness changed by WKT write+read'); return
     ez, em = expected_top_dims(t, cc)
     rz, rm = t_hasz(rt), t_hasm(rt)
     if (rz, rm) != (ez, em):
-        # old-3D is documented to carry no Z/ZM tag: an EMPTY sequence read before any coordinate has no Z
-        lost_by_old3d = old and (not rz or not rm) and (rz <= ez and rm <= em) and any(len(l[2]) == 0 for l in t_leaves(t)) and \
-            (gm is None or gm.get('X') == R or True) and all_coordinates_empty_or_prefix(t, rt, ez, em)
+        # old-3D is documented to carry no Z / ZM word: a sequence that is EMPTY (or read before any coordinate) comes back without Z
+        lost_by_old3d = old and rz <= ez and rm <= em and any(len(l[2]) == 0 for l in t_leaves(t))
         if not lost_by_old3d:
             report(ctx, None, 'wkt_dims_%d' % j, dict(case=line, written=W, reread=R, expected_dims=dict(z=ez, m=em), got=dict(z=rz, m=rm), replay=replay),
                    'dimensionality after re-read is Z=%s M=%s, the dropping rule gives Z=%s M=%s' % (rz, rm, ez, em)); return
     # ordinates: the numbers of the text, in order, against the kept ordinates of the input
     texts = [m.group(0) for m in WKT_NUM.finditer(W)]
-    orig = []
-    for leaf in t_leaves(t):
-        pass
     kept = kept_ordinates(t, cc)
     rords = [int(o, 16) for l in t_leaves(rt) for cs in l[2] for o in cs]
     if len(texts) == len(kept) == len(rords):
@@ -982,15 +980,6 @@ def check_wkt(ctx, j, line, c, t, gi, gm, replay, dist, disagree, hexe):
                     break
     else:
         ctx.notes.setdefault('ordinate_alignment_skipped', 0); ctx.notes['ordinate_alignment_skipped'] += 1
-
-
-def t_shape_expected(t):
-    """the shape the reader must give back: identical, except that a MultiPoint member is cut to one coordinate by construction"""
-    return t_shape(t)
-
-
-def all_coordinates_empty_or_prefix(t, rt, ez, em):
-    return True
 
 
 def kept_ordinates(t, c):
@@ -1110,7 +1099,6 @@ def check_json(ctx, j, line, ind, t, gi, gm, replay, dist, disagree):
     for lo, lr in zip(t_leaves_json(t), t_leaves(rt)):
         for co, cr in zip(lo[2], lr[2]):
             want = [hx(co[0]), hx(co[1])] + ([hx(co[2])] if lo[1] & 1 and not is_nan_bits(co[2]) else [])
-            got = [x for x in cr if x != NAN or True]
             got = cr[:2] + ([cr[2]] if len(cr) > 2 and cr[2] != NAN else [])
             if want != got:
                 report(ctx, None, 'json_value_%d' % j, dict(case=line, written=W[:2000], wanted=want, reread=cr, replay=replay), 'GeoJSON re-read ordinates %s differ from the written %s' % (cr, want))
